@@ -103,6 +103,8 @@ fn parse_resp(r: &str) -> Resp {
         Resp::Def
     } else if let Some(v) = r.strip_prefix("ans") {
         Resp::Ans(v.parse().unwrap_or(0))
+    } else if r == "panE" {
+        Resp::Pan(String::new())
     } else if let Some(v) = r.strip_prefix("pan") {
         Resp::Pan(format!("boom{v}"))
     } else if r == "unm" {
